@@ -3,3 +3,4 @@ import PynProofs.FixIset
 import PynProofs.SetOps
 import PynProofs.Search
 import PynProofs.Parseval
+import PynProofs.Diff
